@@ -1,14 +1,584 @@
-//! C12 harness (stub).
+//! C12: manifests describe their sketches faithfully and round-trip through CSV.
+//!
+//! Request lines:
+//!   rec <loc> <md5> <md5short> <ksize> <moltype> <num> <scaled> <n_hashes> <abund> <name> <filename>
+//!        append a raw record to the case's manifest (strings in hex, `-` = empty)
+//!   write                 bytes of Manifest::to_writer (hex)
+//!   rt                    to_writer, then from_reader: the records read back
+//!   read <hex>            Manifest::from_reader on these bytes
+//!   isect <A> <B>         (rows A).intersect_manifest(rows B), index lists into the case's manifest
+//!   sig <name|~> <filename|~> ; sk <ksize> <mol> <num> <scaled> <tracked> <v|t> <mins> <abunds> <md5>
+//!   fromsig i <loc>       Record::from_sig(sig i, loc)
+//!   lookup i              Collection::from_sigs(all sigs).sig_for_dataset(i)
+//!   zipcheck <path>       Collection::from_zipfile(/repo/tests/test-data/<path>): every row equals
+//!                         Record::from_sig of the one sketch sig_for_dataset returns
+use sourmash::collection::Collection;
+use sourmash::encodings::HashFunctions;
+use sourmash::manifest::{Manifest, Record};
+use sourmash::signature::{Signature, SigsTrait};
+use sourmash::sketch::minhash::{max_hash_for_scaled, KmerMinHash, KmerMinHashBTree};
+use sourmash::sketch::Sketch;
 use verif_harness::*;
 
-fn gen(_a: &Args) {
-    let mut o = Out::new();
-    o.case("stub");
+const SEED0: u64 = 1000;
+const MOLS: [&str; 4] = ["dna", "protein", "dayhoff", "hp"];
+
+fn hf(m: &str) -> HashFunctions {
+    match m {
+        "dna" => HashFunctions::Murmur64Dna,
+        "protein" => HashFunctions::Murmur64Protein,
+        "dayhoff" => HashFunctions::Murmur64Dayhoff,
+        "hp" => HashFunctions::Murmur64Hp,
+        _ => panic!("mol"),
+    }
+}
+fn mol_name(h: &HashFunctions) -> &'static str {
+    match h {
+        HashFunctions::Murmur64Dna => "dna",
+        HashFunctions::Murmur64Protein => "protein",
+        HashFunctions::Murmur64Dayhoff => "dayhoff",
+        HashFunctions::Murmur64Hp => "hp",
+        _ => "custom",
+    }
 }
 
-fn step(_: &mut (), ws: &[&str]) -> String {
+fn s_of(hexs: &str) -> String {
+    String::from_utf8(unhex(hexs)).unwrap()
+}
+
+/// a `Record` with arbitrary field values (the struct's fields are private; serde is the way in)
+fn make_record(ws: &[&str]) -> Record {
+    let v = serde_json::json!({
+        "internal_location": s_of(ws[0]),
+        "md5": s_of(ws[1]),
+        "md5short": s_of(ws[2]),
+        "ksize": ws[3].parse::<u32>().unwrap(),
+        "moltype": s_of(ws[4]),
+        "num": ws[5].parse::<u32>().unwrap(),
+        "scaled": ws[6].parse::<u64>().unwrap(),
+        "n_hashes": ws[7].parse::<u64>().unwrap(),
+        "with_abundance": ws[8],
+        "name": s_of(ws[9]),
+        "filename": s_of(ws[10]),
+    });
+    serde_json::from_value(v).unwrap()
+}
+
+/// every field of a record, through serde again (md5short has no getter)
+fn show_record(r: &Record) -> String {
+    let v = serde_json::to_value(r).unwrap();
+    let s = |k: &str| hex(v[k].as_str().unwrap().as_bytes());
+    format!(
+        "{}:{}:{}:{}:{}:{}:{}:{}:{}:{}:{}",
+        s("internal_location"),
+        s("md5"),
+        s("md5short"),
+        v["ksize"].as_u64().unwrap(),
+        s("moltype"),
+        v["num"].as_u64().unwrap(),
+        v["scaled"].as_u64().unwrap(),
+        v["n_hashes"].as_u64().unwrap(),
+        v["with_abundance"].as_i64().unwrap(),
+        s("name"),
+        s("filename"),
+    )
+}
+
+fn show_records<'a, I: IntoIterator<Item = &'a Record>>(rs: I) -> String {
+    let v: Vec<String> = rs.into_iter().map(show_record).collect();
+    if v.is_empty() {
+        "-".into()
+    } else {
+        v.join("|")
+    }
+}
+
+// ------------------------------------------------------------------ generator
+
+const ALPHA: [&str; 16] = ["a", "b", "#", ",", "\"", "\n", "\r", " ", "é", "/", ".", "'", "\t", "\\", "0", "Z"];
+
+fn gen_string(r: &mut Rng) -> String {
+    let mut s = String::new();
+    match r.below(10) {
+        0 => {}
+        1 => s.push('#'),
+        2 => {
+            s.push('#');
+            for _ in 0..r.range(1, 4) {
+                s.push_str(*r.pick(&ALPHA));
+            }
+        }
+        3 => {
+            for _ in 0..r.range(1, 3) {
+                s.push_str(*r.pick(&["a", "b", "x.sig", "/"]));
+            }
+        }
+        _ => {
+            for _ in 0..r.range(1, 6) {
+                s.push_str(*r.pick(&ALPHA));
+            }
+        }
+    }
+    s
+}
+
+fn gen_md5(r: &mut Rng) -> String {
+    if r.chance(1, 8) {
+        gen_string(r)
+    } else {
+        format!("{:016x}{:016x}", r.next(), r.next())
+    }
+}
+
+fn gen_rec(r: &mut Rng) -> Vec<String> {
+    let md5 = gen_md5(r);
+    let md5short: String = if r.chance(1, 6) { gen_string(r) } else { md5.chars().take(8).collect() };
+    let u32s = [0u64, 1, 21, 31, 500, 4294967295];
+    let u64s = [0u64, 1, 1000, 4294967296, u64::MAX];
+    let molt = match r.below(8) {
+        0 => "dna".to_string(),
+        1 => "Protein".to_string(),
+        2 => gen_string(r),
+        3 => "protein".into(),
+        4 => "dayhoff".into(),
+        5 => "hp".into(),
+        _ => "DNA".into(),
+    };
+    vec![
+        hex(gen_string(r).as_bytes()),
+        hex(md5.as_bytes()),
+        hex(md5short.as_bytes()),
+        (if r.chance(1, 2) { *r.pick(&u32s) } else { r.bits(32) }).to_string(),
+        hex(molt.as_bytes()),
+        (if r.chance(1, 2) { *r.pick(&u32s) } else { r.bits(32) }).to_string(),
+        (if r.chance(1, 2) { *r.pick(&u64s) } else { r.bits(64) }).to_string(),
+        (if r.chance(1, 2) { *r.pick(&u64s) } else { r.bits(64) }).to_string(),
+        r.below(2).to_string(),
+        hex(gen_string(r).as_bytes()),
+        hex(gen_string(r).as_bytes()),
+    ]
+}
+
+const HEADER: [&str; 11] = [
+    "internal_location", "md5", "md5short", "ksize", "moltype", "num", "scaled", "n_hashes", "with_abundance",
+    "name", "filename",
+];
+
+/// a CSV text for these records written by hand, in one of the dialects the reader accepts
+/// (or with one defect it must refuse)
+fn render_variant(r: &mut Rng, recs: &[Vec<String>]) -> Vec<u8> {
+    let term: &[u8] = match r.below(4) {
+        0 => b"\r\n",
+        1 => b"\r",
+        _ => b"\n",
+    };
+    let quote_all = r.chance(1, 3);
+    let defect = if r.chance(1, 4) { r.range(1, 8) } else { 0 };
+    // column order
+    let mut order: Vec<usize> = (0..11).collect();
+    if r.chance(1, 3) {
+        for i in (1..11).rev() {
+            let j = r.below(i as u64 + 1) as usize;
+            order.swap(i, j);
+        }
+    }
+    let extra_col = r.chance(1, 5);
+    let mut out: Vec<u8> = vec![];
+    if r.chance(3, 4) {
+        out.extend(b"# SOURMASH-MANIFEST-VERSION: 1.0\n");
+    }
+    if r.chance(1, 4) {
+        out.extend(b"#another, \"comment\r with CR\n");
+    }
+    let put = |out: &mut Vec<u8>, f: &[u8], force: bool| {
+        let special = f.iter().any(|b| b",\"\r\n#".contains(b));
+        if special || force {
+            out.push(b'"');
+            for &b in f {
+                if b == b'"' {
+                    out.push(b'"');
+                }
+                out.push(b);
+            }
+            out.push(b'"');
+        } else {
+            out.extend(f);
+        }
+    };
+    // header
+    let mut names: Vec<String> = order.iter().map(|&i| HEADER[i].to_string()).collect();
+    if extra_col {
+        names.insert(r.below(names.len() as u64 + 1) as usize, "extra".into());
+    }
+    let extra_pos = names.iter().position(|n| n == "extra");
+    if defect == 1 {
+        let i = r.below(names.len() as u64) as usize;
+        names[i] = "nme".into(); // a column is missing
+    }
+    if defect == 2 {
+        names.push("name".into()); // duplicated column
+    }
+    for (i, n) in names.iter().enumerate() {
+        if i > 0 {
+            out.push(b',');
+        }
+        put(&mut out, n.as_bytes(), quote_all && r.chance(1, 2));
+    }
+    out.extend(term);
+    for (ri, rec) in recs.iter().enumerate() {
+        if r.chance(1, 6) {
+            out.extend(term); // blank line
+        }
+        if r.chance(1, 8) {
+            out.extend(b"#x,y\n");
+        }
+        let mut fields: Vec<Vec<u8>> = order
+            .iter()
+            .map(|&i| match i {
+                3 | 5 | 6 | 7 | 8 => rec[i].as_bytes().to_vec(),
+                _ => unhex(&rec[i]),
+            })
+            .collect();
+        // dialect of the typed fields
+        for (pos, &i) in order.iter().enumerate() {
+            if i == 8 && r.chance(1, 3) {
+                let t = if rec[8] == "1" { *r.pick(&["true", "True", "TRUE", "tRuE"]) } else { *r.pick(&["false", "False", "FALSE"]) };
+                fields[pos] = t.as_bytes().to_vec();
+            }
+            if (i == 3 || i == 5 || i == 6 || i == 7) && r.chance(1, 6) {
+                let mut v = if r.chance(1, 2) { b"+".to_vec() } else { b"00".to_vec() };
+                v.extend(rec[i].as_bytes());
+                fields[pos] = v;
+            }
+        }
+        if ri == 0 {
+            match defect {
+                3 => fields[order.iter().position(|&i| i == 8).unwrap()] = b"yes".to_vec(),
+                4 => fields[order.iter().position(|&i| i == 3).unwrap()] = b"4294967296".to_vec(),
+                5 => fields[order.iter().position(|&i| i == 5).unwrap()] = b"".to_vec(),
+                6 => fields[order.iter().position(|&i| i == 6).unwrap()] = b"-1".to_vec(),
+                7 => {
+                    fields.pop(); // a short row
+                }
+                8 => fields[order.iter().position(|&i| i == 7).unwrap()] = b"18446744073709551616".to_vec(),
+                _ => {}
+            }
+        }
+        if let Some(p) = extra_pos {
+            let p = p.min(fields.len());
+            fields.insert(p, gen_string(r).into_bytes());
+        }
+        if defect == 2 {
+            fields.push(b"dup".to_vec());
+        }
+        for (i, f) in fields.iter().enumerate() {
+            if i > 0 {
+                out.push(b',');
+            }
+            put(&mut out, f, quote_all);
+        }
+        if ri + 1 < recs.len() || r.chance(3, 4) {
+            out.extend(term);
+        }
+    }
+    out
+}
+
+#[derive(Clone)]
+struct GSk {
+    ksize: u64,
+    mol: &'static str,
+    num: u64,
+    scaled: u64,
+    tracked: bool,
+    cont: char,
+    mins: Vec<u64>,
+    abunds: Vec<u64>,
+}
+impl GSk {
+    fn words(&self) -> String {
+        format!(
+            "{} {} {} {} {} {} {} {}",
+            self.ksize,
+            self.mol,
+            self.num,
+            self.scaled,
+            self.tracked as u8,
+            self.cont,
+            show_nats(self.mins.iter().cloned()),
+            show_nats(self.abunds.iter().cloned())
+        )
+    }
+}
+
+fn gen_sketch(r: &mut Rng, res: u64, mol: &'static str, tracked: bool) -> GSk {
+    let ksize = if mol == "dna" { res } else { res * 3 };
+    let (num, scaled) = match r.below(10) {
+        0..=4 => (0, *r.pick(&[1u64, 2, 100, 1000, 2000, 1 << 31])),
+        5..=8 => (*r.pick(&[1u64, 3, 500]), 0),
+        _ => (*r.pick(&[3u64, 500]), *r.pick(&[1u64, 1000])),
+    };
+    let mh = max_hash_for_scaled(scaled);
+    let mut mins: Vec<u64> = (0..r.below(6)).map(|_| if r.chance(1, 2) { r.range(0, 50) } else { r.bits(64) }).collect();
+    mins.sort();
+    mins.dedup();
+    if scaled != 0 {
+        mins.retain(|&h| h <= mh);
+    }
+    if num != 0 {
+        mins.truncate(num as usize);
+    }
+    let abunds = if tracked { mins.iter().map(|_| r.range(1, 9)).collect() } else { vec![] };
+    GSk { ksize, mol, num, scaled, tracked, cont: if r.chance(1, 2) { 'v' } else { 't' }, mins, abunds }
+}
+
+fn gen(a: &Args) {
+    let mut r = Rng::new(a.seed);
+    let mut o = Out::new();
+    let thorough = a.tier == "thorough";
+    // stream 1: raw records through the CSV text
+    let n1 = if a.cases > 0 { a.cases } else if thorough { 40_000 } else { 1500 };
+    for _ in 0..n1 {
+        o.case("csv");
+        let n = match r.below(10) {
+            0 => 0,
+            1..=4 => 1,
+            _ => r.range(2, 5),
+        };
+        let mut recs: Vec<Vec<String>> = vec![];
+        for _ in 0..n {
+            let mut rec = gen_rec(&mut r);
+            // now and then the same row again under another location (equal modulo location)
+            if !recs.is_empty() && r.chance(1, 5) {
+                rec = r.pick(&recs).clone();
+                if r.chance(2, 3) {
+                    rec[0] = hex(gen_string(&mut r).as_bytes());
+                }
+                if r.chance(1, 4) {
+                    rec[9] = hex(gen_string(&mut r).as_bytes());
+                }
+            }
+            o.op(&format!("rec {}", rec.join(" ")));
+            recs.push(rec);
+        }
+        o.op("write");
+        o.op("rt");
+        // the bytes the real writer produces, read back as such
+        let m: Manifest = recs
+            .iter()
+            .map(|rec| make_record(&rec.iter().map(|s| s.as_str()).collect::<Vec<_>>()))
+            .collect::<Vec<Record>>()
+            .into();
+        let mut buf = vec![];
+        m.to_writer(&mut buf).unwrap();
+        o.op(&format!("read {}", hex(&buf)));
+        for _ in 0..2 {
+            o.op(&format!("read {}", hex(&render_variant(&mut r, &recs))));
+        }
+        if n > 0 {
+            for _ in 0..2 {
+                let pickn = |r: &mut Rng| -> Vec<u64> { (0..r.range(0, n)).map(|_| r.below(n)).collect() };
+                let (x, y) = (pickn(&mut r), pickn(&mut r));
+                o.op(&format!("isect {} {}", show_nats(x), show_nats(y)));
+            }
+        }
+    }
+    // stream 2: records built from signatures, and the way back from a record to its sketch
+    let n2 = if a.cases > 0 { a.cases } else if thorough { 20_000 } else { 900 };
+    for _ in 0..n2 {
+        o.case("sigs");
+        let nsig = r.range(1, 4);
+        let mut total = 0;
+        let mut nameless_multi = false;
+        for _ in 0..nsig {
+            // pairwise different (residue ksize, molecule, abundance) inside a signature: the
+            // look-up can tell the sketches apart (the residue is recorded as a known finding)
+            let n = if r.chance(1, 12) { 0 } else { r.range(1, 4) };
+            // a signature without name and filename takes its name from its single sketch's md5;
+            // with any other number of sketches `name()` panics (and every look-up of the case with it)
+            let none_name = if n == 1 { r.chance(1, 2) } else { r.chance(1, 10) };
+            let name = if none_name { "~".to_string() } else { hex(gen_string(&mut r).as_bytes()) };
+            let fname = if r.chance(1, 2) { "~".to_string() } else { hex(gen_string(&mut r).as_bytes()) };
+            o.op(&format!("sig {} {}", name, fname));
+            let mut seen: Vec<(u64, &str, bool)> = vec![];
+            for _ in 0..n {
+                let key = (*r.pick(&[7u64, 10, 21, 31]), *r.pick(&MOLS), r.chance(1, 2));
+                if seen.contains(&key) {
+                    continue;
+                }
+                seen.push(key);
+                let g = gen_sketch(&mut r, key.0, key.1, key.2);
+                let md5 = md5_of(&build_sketch(&format!("sk {}", g.words()).split(' ').collect::<Vec<_>>(), 0));
+                o.op(&format!("sk {} {}", g.words(), md5));
+            }
+            if name == "~" && fname == "~" && seen.len() != 1 {
+                nameless_multi = true;
+            }
+            total += seen.len() as u64;
+        }
+        for i in 0..nsig {
+            o.op(&format!("fromsig {} {}", i, hex(gen_string(&mut r).as_bytes())));
+        }
+        let _ = nameless_multi; // from_sigs panics on such a signature: both sides say PANIC
+        for i in 0..total {
+            o.op(&format!("lookup {}", i));
+        }
+        if r.chance(1, 4) {
+            o.op(&format!("lookup {}", total + r.below(2)));
+        }
+    }
+}
+
+// ------------------------------------------------------------------ exec
+
+#[derive(Default)]
+struct St {
+    recs: Vec<Record>,
+    sigs: Vec<Signature>,
+}
+
+fn build_sketch(ws: &[&str], j: usize) -> Sketch {
+    let n = |i: usize| -> u64 { ws[i].parse().unwrap() };
+    let (ksize, mol, num, scaled, tracked, cont) = (n(1), ws[2], n(3), n(4), ws[5] == "1", ws[6]);
+    let mins = parse_nats(ws[7]);
+    let abunds = parse_nats(ws[8]);
+    let seed = SEED0 + j as u64;
+    if cont == "v" {
+        let mut mh = KmerMinHash::new(scaled, ksize as u32, hf(mol), seed, tracked, num as u32);
+        for (i, h) in mins.iter().enumerate() {
+            mh.add_hash_with_abundance(*h, if tracked { abunds[i] } else { 1 });
+        }
+        Sketch::MinHash(mh)
+    } else {
+        let mut mh = KmerMinHashBTree::new(scaled, ksize as u32, hf(mol), seed, tracked, num as u32);
+        for (i, h) in mins.iter().enumerate() {
+            mh.add_hash_with_abundance(*h, if tracked { abunds[i] } else { 1 });
+        }
+        Sketch::LargeMinHash(mh)
+    }
+}
+
+fn md5_of(s: &Sketch) -> String {
+    match s {
+        Sketch::MinHash(mh) => mh.md5sum(),
+        Sketch::LargeMinHash(mh) => mh.md5sum(),
+        _ => panic!(),
+    }
+}
+
+fn descr(s: &Sketch) -> String {
+    let (seed, ksize, h, num, scaled, tracked, c, mins, abunds) = match s {
+        Sketch::MinHash(mh) => (
+            mh.seed(), mh.ksize(), mh.hash_function(), mh.num(), mh.scaled(), mh.track_abundance(), 'v', mh.mins(), mh.abunds(),
+        ),
+        Sketch::LargeMinHash(mh) => (
+            mh.seed(), mh.ksize(), mh.hash_function(), mh.num(), mh.scaled(), mh.track_abundance(), 't', mh.mins(), mh.abunds(),
+        ),
+        _ => panic!("sketch type"),
+    };
+    format!(
+        "{}/{}/{}/{}/{}/{}/{}/{}/{}/{}/{}",
+        seed - SEED0,
+        ksize,
+        mol_name(&h),
+        num,
+        scaled,
+        tracked as u8,
+        c,
+        mins.len(),
+        show_nats(mins),
+        show_nats(abunds.unwrap_or_default()),
+        md5_of(s)
+    )
+}
+
+fn idx_list(st: &St, s: &str) -> Manifest {
+    let v: Vec<Record> = parse_nats(s).into_iter().map(|i| st.recs[i as usize].clone()).collect();
+    v.into()
+}
+
+fn step(st: &mut St, ws: &[&str]) -> String {
     match ws[0] {
         "case" => "ok".into(),
+        "rec" => {
+            st.recs.push(make_record(&ws[1..]));
+            "ok".into()
+        }
+        "write" => {
+            let m: Manifest = st.recs.clone().into();
+            let mut buf = vec![];
+            m.to_writer(&mut buf).unwrap();
+            hex(&buf)
+        }
+        "rt" => {
+            let m: Manifest = st.recs.clone().into();
+            let mut buf = vec![];
+            m.to_writer(&mut buf).unwrap();
+            match Manifest::from_reader(&buf[..]) {
+                Ok(m) => show_records(m.iter()),
+                Err(_) => "err CsvError".into(),
+            }
+        }
+        "read" => match Manifest::from_reader(&unhex(ws[1])[..]) {
+            Ok(m) => show_records(m.iter()),
+            Err(_) => "err CsvError".into(),
+        },
+        "isect" => {
+            let a = idx_list(st, ws[1]);
+            let b = idx_list(st, ws[2]);
+            show_records(a.intersect_manifest(&b).iter())
+        }
+        "sig" => {
+            let mut sig = Signature::default();
+            if ws[1] != "~" {
+                sig.set_name(&s_of(ws[1]));
+            }
+            if ws[2] != "~" {
+                sig.set_filename(&s_of(ws[2]));
+            }
+            st.sigs.push(sig);
+            "ok".into()
+        }
+        "sk" => {
+            let sig = st.sigs.last_mut().unwrap();
+            let sk = build_sketch(ws, sig.size());
+            let d = descr(&sk);
+            sig.push(sk);
+            d
+        }
+        "fromsig" => {
+            let sig = &st.sigs[ws[1].parse::<usize>().unwrap()];
+            let recs = Record::from_sig(sig, &s_of(ws[2]));
+            show_records(recs.iter())
+        }
+        "lookup" => {
+            let c = Collection::from_sigs(st.sigs.clone()).unwrap();
+            let i: u32 = ws[1].parse().unwrap();
+            match c.sig_for_dataset(i) {
+                Ok(s) => {
+                    let loc = c.manifest()[i as usize].internal_location().to_string();
+                    let v: Vec<String> = Signature::from(s).iter().map(descr).collect();
+                    format!("{}={}", loc, if v.is_empty() { "-".into() } else { v.join(";") })
+                }
+                Err(e) => format!("err {:?}", e),
+            }
+        }
+        "zipcheck" => {
+            let c = Collection::from_zipfile(format!("/repo/tests/test-data/{}", ws[1])).unwrap();
+            let mut bad = vec![];
+            for (i, rec) in c.iter() {
+                let s = Signature::from(c.sig_for_dataset(i).unwrap());
+                let rs = Record::from_sig(&s, rec.internal_location().as_str());
+                if rs.len() != 1 || show_record(&rs[0]) != show_record(rec) {
+                    bad.push(i.to_string());
+                }
+            }
+            if bad.is_empty() && !c.is_empty() {
+                "faithful".into()
+            } else {
+                format!("unfaithful {}", bad.join(","))
+            }
+        }
         _ => "bad-op".into(),
     }
 }
@@ -17,7 +587,7 @@ fn main() {
     let a = args();
     match a.mode.as_str() {
         "gen" => gen(&a),
-        "exec" => exec_loop(|| (), step),
+        "exec" => exec_loop(St::default, step),
         _ => panic!("mode"),
     }
 }
